@@ -256,7 +256,7 @@ Lemma good_cases c s o s' r :
     let b := sess_captured (ss s0) (m_chaddr m) in
     ((exists x, r = mk_reply c ROffer m x b /\ addr_good c s0 (m_chaddr m) (getcid m) x s') \/
      r = mk_reply c RNak m 0 b \/
-     (exists x, r = mk_reply c RAck m x b /\ addr_good c s0 (m_chaddr m) (getcid m) x s' /\ ack_facts c s0 m x)).
+     (exists x, r = mk_reply c RAck m x b /\ addr_good c s0 (m_chaddr m) (getcid m) x s' /\ ack_facts c (op_now o) s0 m x)).
 Proof.
   intros [m [Hm G]]. exists m. split; auto. destruct G as [G|[_ [G|G]]]; auto.
 Qed.
@@ -291,7 +291,7 @@ Qed.
 Lemma ack_of_good c s o s' r m :
   reply_good c s o s' r -> op_msg o = Some m -> is_ack r = true ->
   exists x, r_yi r = x /\ addr_good c (parse_effect c s m) (m_chaddr m) (getcid m) x s' /\
-            ack_facts c (parse_effect c s m) m x.
+            ack_facts c (op_now o) (parse_effect c s m) m x.
 Proof.
   intros G Hm Ha. apply good_cases in G as [m' [Hm' G]]. rewrite Hm in Hm'. inversion Hm'; subst m'.
   destruct G as [[x [E A]]|[E|[x [E [A F]]]]]; subst r; try discriminate.
@@ -306,31 +306,26 @@ Proof.
   unfold c12_ack_matches. destruct (is_ack r) eqn:Ha; auto. simpl.
   destruct (ack_of_good _ _ _ _ _ m G Hm Ha) as [x [Hx [_ [[l0 [T [_ St]]] _]]]].
   rewrite parse_tbl in T. rewrite T, Hx.
-  destruct St as [[S [X O]]|[S I]]; rewrite S; simpl.
+  destruct St as [[S [X O]]|[S [I _]]]; rewrite S; simpl.
   - rewrite X, O. simpl. rewrite !N.eqb_refl. reflexivity.
   - rewrite I. simpl. rewrite N.eqb_refl. reflexivity.
 Qed.
 
-(* UNCHANGED selecting/rebooting paths: true outside the recorded class (the client's lease
-   acknowledged but past its expiry) *)
-Theorem no_ack_when_partial : forall c h t m,
+Theorem no_ack_when_all : forall c h t m,
   In t (trace c (init c) h) -> op_msg (t_op t) = Some m ->
-  known_c12_expired t = false ->
   c12_no_ack_when c (t_pre t) m (op_now (t_op t)) (t_reply t) = true.
 Proof.
-  intros c h t m Hin Hm Hk. unfold c12_no_ack_when.
+  intros c h t m Hin Hm. unfold c12_no_ack_when.
   destruct (t_reply t) as [r|] eqn:Hr; [|apply orb_true_r].
   destruct (is_ack r) eqn:Ha; [|apply orb_true_r]. simpl. rewrite orb_false_r. apply negb_true_iff.
   destruct (trace_reply c h t r Hin Hr) as [_ [_ G]].
   destruct (ack_of_good _ _ _ _ _ m G Hm Ha) as [x [Hx [[[P _] _] [[l0 [T [M St]]] [As Os]]]]].
   rewrite parse_tbl in T.
-  unfold known_c12_expired in Hk. rewrite Hm in Hk.
-  unfold cannot_honour. rewrite Hk.
-  unfold lease_unknown, lease_mismatch, outside_subnet, client_net, sess_at.
+  unfold cannot_honour, lease_unknown, lease_expired, lease_mismatch, outside_subnet, client_net, sess_at.
   rewrite Os, T, As, M, N.eqb_refl. rewrite (in_pool_contains _ _ _ P).
-  destruct St as [[S [X O]]|[S I]]; rewrite S; simpl.
+  destruct St as [[S [X O]]|[S [I Ex]]]; rewrite S; simpl.
   - rewrite O. simpl. rewrite N.eqb_refl. reflexivity.
-  - rewrite I. simpl. rewrite N.eqb_refl. reflexivity.
+  - rewrite I, Ex. simpl. rewrite N.eqb_refl. reflexivity.
 Qed.
 
 (* ---------------------------------------------------------------- *)
